@@ -71,6 +71,8 @@ class ExprMixin:
             return VList(ref)
         if ty in ("opaque", "map", "cache", "optlist"):
             return VObj(name, "<" + ty + ">")
+        if ty == "none":
+            return NONE
         if ty == "optopaque":
             return VOpt(z3.Bool(name + "?none"), VObj(name, "<opaque>"))
         raise Unsupported(f"type {ty}")
@@ -121,6 +123,8 @@ class ExprMixin:
     def truth(self, v):
         if isinstance(v, VBool):
             return v.t
+        if isinstance(v, BoolishV):
+            return v.t
         if isinstance(v, VInt):
             return v.t != 0
         if isinstance(v, VNone):
@@ -138,6 +142,8 @@ class ExprMixin:
             return self.list_len(p) > 0
         if isinstance(v, VTuple):
             return z3.BoolVal(len(v.items) > 0)
+        if isinstance(v, VDict):
+            return z3.BoolVal(len(self.get_payload(v.ref).items) > 0)
         if isinstance(v, (VObj, VFunc, VElem)):
             if isinstance(v, VObj) and v.cls.startswith("<"):
                 # an opaque value (regex, match object, env entry ...): unknown but fixed truthiness
@@ -262,6 +268,16 @@ class ExprMixin:
         items = [self.eval(e, fr) for e in node.elts]
         return self.new_list(PyListP(items))
 
+    def e_Dict(self, node, fr):
+        items = {}
+        for k, v in zip(node.keys, node.values):
+            if not (isinstance(k, ast.Constant) and isinstance(k.value, str)):
+                raise Unsupported("dict literal with non-constant key")
+            items[k.value] = self.eval(v, fr)
+        ref = self.new_ref("dict")
+        self.payload[ref] = PyDictP(items)
+        return VDict(ref)
+
     def e_JoinedStr(self, node, fr):
         # f-strings occur only in exception messages / __repr__: opaque string
         s = VStr.var(self.new_ref("fstr"))
@@ -363,10 +379,12 @@ class ExprMixin:
                     rt = self.truth(rhs)
                     # value semantics: `a and b` returns an operand; we only support use as a condition or
                     # when both are bool-like
-                    if isinstance(cur, VBool) and isinstance(rhs, VBool):
+                    if isinstance(cur, (VBool, BoolishV)) and isinstance(rhs, (VBool, BoolishV)):
                         merged = VBool(z3.And(ct, rt) if is_and else z3.Or(ct, rt))
-                    else:
+                    elif self.spec_mode or self.nofork:
                         merged = BoolishV(z3.And(ct, rt) if is_and else z3.Or(ct, rt), cur, rhs, ct, is_and)
+                    else:
+                        merged = None
                 except (NeedFork, Unmergeable):
                     if self.spec_mode or self.nofork:
                         raise
@@ -514,6 +532,8 @@ class ExprMixin:
         base = self.eval(node.value, fr)
         if isinstance(node.slice, ast.Slice):
             return self.do_slice(base, node.slice, node, fr)
+        if isinstance(base, VFunc) and base.kind == "class":
+            return base  # generic alias Rule[RuleFuncTv]
         idx = self.eval(node.slice, fr)
         return self.index(base, idx, node, fr)
 
@@ -537,7 +557,22 @@ class ExprMixin:
                         return p.items[k]
                     self.safe_or_raise(z3.BoolVal(False), "IndexError", node, fr, "subscript")
                     raise PathEnd()
-                raise Unsupported("symbolic index into a literal list")
+                n = len(p.items)
+                self.safe_or_raise(z3.And(i >= -n, i < n), "IndexError", node, fr, "subscript")
+                if n == 0:
+                    if self.spec_mode:
+                        return VAtom(fresh("nothing"))
+                    raise PathEnd()
+                if n == 1:
+                    return p.items[0]
+                j = z3.simplify(self.norm_index(i, z3.IntVal(n)))
+                res = p.items[-1]
+                try:
+                    for kk in range(n - 2, -1, -1):
+                        res = self.ite(j == kk, p.items[kk], res)
+                except Unmergeable:
+                    raise Unsupported("symbolic index into a heterogeneous literal list")
+                return res
             i = self.as_int(idx, "list index")
             n = self.list_len(p)
             self.safe_or_raise(z3.And(i >= -n, i < n), "IndexError", node, fr, "subscript")
@@ -578,6 +613,8 @@ class ExprMixin:
         return self.index_special(base, idx, node, fr)
 
     def index_special(self, base, idx, node, fr):
+        if isinstance(base, VFunc) and base.kind == "class":
+            return base
         if isinstance(base, VOpt):
             self.safe_or_raise(z3.Not(base.isnone), "TypeError", node, fr, "subscript")
             return self.index(base.some, idx, node, fr)
@@ -745,10 +782,19 @@ class ExprMixin:
         return self.contains_special(container, x, node, fr)
 
     def contains_special(self, container, x, node, fr):
+        if isinstance(container, VAtom):
+            # membership in an opaque immutable list value (Rule.alt): uninterpreted predicate
+            xv = x.t if isinstance(x, VAtom) else (z3.IntVal(intern_atom(x.a)) if isinstance(x, VStr) and x.kind == "lit" else None)
+            if xv is None:
+                raise Unsupported("in on atom list")
+            return MEM(container.t, xv)
         raise Unsupported(f"in on {container!r}")
 
     def cache_is_none(self, x):
-        raise Unsupported("cache")
+        return z3.Bool(f"isnone({x.ref})")
+
+
+MEM = z3.Function("Mem", z3.IntSort(), z3.IntSort(), z3.BoolSort())
 
 
 class Unmergeable(Exception):
